@@ -36,7 +36,12 @@ def h_curve_ders(cx, sp, order, evaluator='default'):
     ders = obj.derivatives(u, order)
     cx.check('len', len(ders) == order + 1, 'got %d derivative vectors for order %d' % (len(ders), order))
     for k in range(min(order + 1, len(ders))):
-        cx.eq('ders[%d]' % k, list(ders[k]), orc.D(k))
+        if sp['rational'] and k >= 2:
+            # quotient-rule characterisation (avoids the formal derivative of a quotient)
+            lhs, rhs = orc.leibniz_residuals(lambda j: list(ders[j]), (k,))
+            cx.eq('ders[%d]' % k, rhs, lhs)
+        else:
+            cx.eq('ders[%d]' % k, list(ders[k]), orc.D(k))
     if not sp['rational']:
         for k in range(p + 1, min(order + 1, len(ders))):
             cx.eq('zero_above_degree[%d]' % k, list(ders[k]), [0] * sp['dim'])
@@ -56,7 +61,11 @@ def h_surface_ders(cx, sp, order, evaluator='default'):
     skl = obj.derivatives(prm[0], prm[1], order)
     for k in range(order + 1):
         for l in range(order + 1 - k):
-            cx.eq('skl[%d][%d]' % (k, l), list(skl[k][l]), orc.D(k, l))
+            if sp['rational'] and k + l >= 2:
+                lhs, rhs = orc.leibniz_residuals(lambda a, b: list(skl[a][b]), (k, l))
+                cx.eq('skl[%d][%d]' % (k, l), rhs, lhs)
+            else:
+                cx.eq('skl[%d][%d]' % (k, l), list(skl[k][l]), orc.D(k, l))
 
 
 def h_hodograph_curve(cx, sp):
@@ -206,6 +215,9 @@ def instances(tier):
         for order in orders:
             add('ders', h_surface_ders, spr, timeout=3000, order=order)
     add('tangent_normal', h_tangent_normal, spec('surface', (1, 2), ((), ()), rational=True), timeout=3000, normalize=False)
+    add('ders', h_surface_ders, spec('surface', (1, 1), ((), ()), rational=True), timeout=3000, order=3)
+    if not quick:
+        add('ders', h_surface_ders, spec('surface', (2, 1), ((), ()), rational=True), timeout=3000, order=3)
     add('hodograph', h_hodograph_surface, spec('surface', (2, 2), ((1,), (1,)), rational=False), timeout=1800)
     add('hodograph', h_hodograph_surface, spec('surface', (3, 2), ((1,), ()), rational=False), timeout=1800)
     for normalize in (False, True):
